@@ -142,7 +142,16 @@ def genHttpPlan (seed n : Nat) : List String :=
       let plainPath ← G.oneOf ["/frontpage", "/frontpage", "/", "/a/b", "status", "/api/v1/info", "/a//b", "x/y/", "/front-page_1~"]
       let path ← if k % 4 == 0 && k / 4 < pathShapes.length then pure (utf8 (pathShapes.getD (k / 4) ""))
         else if k % 4 == 2 then gPath else pure (utf8 plainPath)
-      let call ← G.oneOf ["eco", "eco", "json", "json", "raw"]
+      let call ← G.oneOf ["eco", "eco", "json", "json", "raw", "fromurl"]
+      -- `from_url` looks a domain up with the system resolver: only spellings of the listener's own address (or none, or
+      -- text the URL parser rejects) are used as the URL's host
+      let spell ← G.below 4
+      let host := if call != "fromurl" then host else
+        if v6 then (if spell == 0 then some (utf8 "a b") else none)
+        else
+          let n := ip.foldl (fun acc x => acc * 256 + x) 0
+          if spell == 0 then some (natDec n) else if spell == 1 then some (asciiBytes "0X" ++ (hexLower n).map (fun b => if b ≥ 97 then b - 32 else b))
+          else if spell == 2 then (if k % 3 == 0 then some (utf8 "[::1") else none) else none
       let port80 ← G.chance 1 12
       let (doc, want) ← gDoc
       let b ← G.below 10
